@@ -143,6 +143,17 @@ func (E *Engine) encodeOnce(name string, level int, cands map[CandKey]bool) (res
 		fr.params[fv.Name()] = v
 	}
 	fr.curReach = True
+	var probes []Probe
+	if level >= 0 && fn.Parent() == nil {
+		probes = fx.addProbes(fn, fr.params)
+	}
+	defer func() {
+		for _, o := range enc.Obls {
+			if o.Expect == "unsat" {
+				o.Probes = probes
+			}
+		}
+	}()
 	if ct != nil {
 		ev := fr.env(entry, entry, nil)
 		ev.local = nil
